@@ -24,6 +24,14 @@ Init3 == { <<None, None, None>>,
            <<None, R("b", "B", 0), R("b", "B", 0)>> }
 Init3s == { <<R("a", "A", 0), R("b", "B", 1), None>>,
             <<R("a", "A", 1), R("a", "B", 0), R("b", "A", 0)>> }
+Init3w == { <<R("a", "A", 0), R("b", "B", 1), None>>,
+            <<R("c", "C", 1), R("c", "C", 0), R("b", "A", 0)>> }
+Init2w == { <<None, None>>,
+            <<R("a", "A", 0), R("c", "C", 1)>>,
+            <<R("b", "B", 1), R("b", "B", 1)>> }
+Init2s == { <<None, None>>,
+            <<R("a", "A", 0), R("b", "B", 1)>>,
+            <<R("a", "A", 1), R("a", "A", 0)>> }
 \* over 4 port numbers
 Init4 == { <<None, None, None, None>>,
            <<R("a", "A", 0), R("b", "B", 0), None, R("b", "A", 0)>>,
@@ -34,4 +42,7 @@ Init4w == { <<None, None, None, None>>,
             <<R("c", "C", 1), None, R("c", "C", 1), R("b", "B", 0)>> }
 \* any features reply at all (simulation / trace validation)
 InitAny == [Ports -> Slot]
+NotesBound3 == Len(notes) <= 3
+NotesBound4 == Len(notes) <= 4
+NotesBound5 == Len(notes) <= 5
 ====
